@@ -38,8 +38,13 @@ def scratch(name, patch=True):
     if patch:
         r = sh('git -C %s apply %s' % (d, patch_path(name)))
         if r.returncode:
-            drop(d)
-            raise SystemExit('patch does not apply: ' + r.stderr)
+            # written against an earlier commit: three-way merge, accepted only without conflicts
+            r = sh('git -C %s apply -3 %s' % (d, patch_path(name)))
+            bad = r.returncode or sh('grep -rl "^<<<<<<<" %s/textx' % d).stdout.strip()
+            if bad:
+                drop(d)
+                raise SystemExit('patch of %s does not apply: %s' % (name, r.stderr))
+            sh('git -C %s reset -q' % d)
     return d
 
 
